@@ -3882,7 +3882,9 @@ impl GlobalInferenceCtx<'_> {
                         inferred_stmts: self.inferred_stmts,
                         tys: self.tys,
                         param_tys: Default::default(),
-                        inline_comptime_args: Default::default(),
+                        // the type of this parameter may refer to the earlier comptime
+                        // parameters (`comptime T: type, comptime v: T`)
+                        inline_comptime_args: self.inline_comptime_args.clone(),
                         inline_comptime_tys: self.inline_comptime_tys.clone(),
                         all_finished_locations: self.all_finished_locations,
                         to_infer: self.to_infer,
